@@ -54,26 +54,48 @@ def handleUop (ws : List String) : String :=
   | none => "bad-request"
 
 open RtenVerif.Layout in
+/-- `ti ins=<view>[|<view>] specs=<idx>:<perm>;…` (`r` = reverse, `e` = empty permutation):
+`TransformInputs` wrappers around Identity (one input) or Sub (two inputs). -/
 def handleTi (ws : List String) : String :=
-  match (field "in" ws).bind parseView, field "perms" ws with
-  | some v, some ps =>
+  match field "ins" ws, field "specs" ws with
+  | some ins, some ps =>
+    let views := (ins.splitOn "|").mapM parseView
     let specs : Option (List PermuteSpec) := (ps.splitOn ";").mapM (fun p =>
-      if p == "r" then some ⟨0, none⟩
-      else if p == "e" then some ⟨0, some []⟩
-      else (parseNatList "," p).map (fun l => ⟨0, some l⟩))
-    match specs with
-    | none => "bad-request"
-    | some specs =>
-      -- storage as a list: element i is i + 1
-      let n := v.base + (v.dims.map (fun d => (d.1 - 1) * d.2)).sum + 3
-      let t : TState := ⟨(List.range n).map (fun i => i + 1), v⟩
-      match applyTransforms specs [t] with
-      | .ok [t'] =>
-        let d := (RtenVerif.Iter.rowMajor t'.view.dims).map (fun o => ((t'.store.getD (t'.view.base + o) 0 : Nat) : Int))
-        s!"shape={showShape (sizes t'.view.dims)} data={showData d}"
+      match p.splitOn ":" with
+      | [i, q] => do
+        let idx ← i.toNat?
+        if q == "r" then pure ⟨idx, none⟩
+        else if q == "e" then pure ⟨idx, some []⟩
+        else (parseNatList "," q).map (fun l => ⟨idx, some l⟩)
+      | _ => none)
+    match views, specs with
+    | some vs, some specs =>
+      -- storage: element i of input k is (i + 1) * 100^k
+      let mk (k : Nat) (v : View) : TState :=
+        let n := v.base + (v.dims.map (fun d => (d.1 - 1) * d.2)).sum + 3
+        ⟨(List.range n).map (fun i => (i + 1) * 100 ^ k), v⟩
+      let ts := (List.zip (List.range vs.length) vs).map (fun p => mk p.1 p.2)
+      match applyTransforms specs ts with
+      | .ok [t] => showTens (tensOf t.view (fun i => ((t.store.getD i 0 : Nat) : Int)))
+      | .ok [a, b] =>
+        match binaryOp (fun x y => wrap32 (x - y)) a.view (fun i => ((a.store.getD i 0 : Nat) : Int))
+            b.view (fun i => ((b.store.getD i 0 : Nat) : Int)) with
+        | some t => showTens t
+        | none => "err"
       | .ok _ => "bad-request"
       | .error .err => "err"
       | .error .panic => "panic"
+    | _, _ => "bad-request"
+  | _, _ => "bad-request"
+
+open RtenVerif.Layout in
+/-- `tip ips=<list> idx=<list>`: in-place inputs offered by TransformInputs wrappers. -/
+def handleTip (ws : List String) : String :=
+  match (field "ips" ws).bind (fun s => if s == "-" then some [] else parseNatList "," s),
+      (field "idx" ws).bind (parseNatList ",") with
+  | some ips, some idx =>
+    let r := transformInPlaceInputs ips (idx.map (fun i => ⟨i, none⟩))
+    s!"ips={showShape r}"
   | _, _ => "bad-request"
 
 open RtenVerif.Layout in
@@ -87,6 +109,17 @@ def handleRed (ws : List String) : String :=
     let d := reduceInnerOp (fun (l : List Int) => wrap32 (l.foldl (· + ·) 0)) O I a.base (fun i => (i : Int) + 1)
     s!"shape={showShape (sizes O ++ List.replicate k 1)} data={showData d}"
   | _, _ => "bad-request"
+
+open RtenVerif.Layout in
+/-- `cp a=<view>`: the contiguous copy holds the logical row-major element list. -/
+def handleCp (ws : List String) : String :=
+  match (field "a" ws).bind parseView with
+  | some a =>
+    -- through the C09 model of `to_contiguous` (borrow if contiguous, else row-major copy)
+    let n := a.base + (a.dims.map (fun d => (d.1 - 1) * d.2)).sum + 3
+    let t := toContiguous ⟨(List.range n).map (· + 1), a⟩
+    showTens (tensOf t.view (fun i => ((t.store.getD i 0 : Nat) : Int)))
+  | none => "bad-request"
 
 def handleCov (ws : List String) : String :=
   let names := match ws with
@@ -116,7 +149,9 @@ def handle (line : String) : String :=
   | "bop" :: op :: ws => handleBop op ws
   | "uop" :: ws => handleUop ws
   | "ti" :: ws => handleTi ws
+  | "tip" :: ws => handleTip ws
   | "red" :: ws => handleRed ws
+  | "cp" :: ws => handleCp ws
   | "cov" :: ws => handleCov ws
   | _ => "skip"
 
